@@ -93,14 +93,23 @@ Theorem C18_lists_join_pinned :
 Proof. exact int_lists_join_pinned. Qed.
 Print Assumptions C18_lists_join_pinned.
 (* ... and the list column of a file is split element by element: for rows of >= 1 valid integer texts
-   joined by ',', the column parser returns exactly the rows of values *)
-Theorem C18_lists_split :
-  forall tss vss,
+   joined by ',', the column parser returns exactly the rows of values — the pinned parser (fixed = false) and
+   the repaired one (fixed = true, notes/C02.fix-2.diff).  PARTIAL: the guard "every row holds at least one
+   number" excludes exactly the class on which the pinned parser is wrong (next theorem); for the repaired
+   parser rows with empty lists are tested by the correspondence, not proved. *)
+Theorem C18_lists_split_partial :
+  forall fixed tss vss,
     Forall2 (Forall2 (fun t v => text_value t = Some v /\ - 2 ^ 63 <= v < 2 ^ 63)) tss vss ->
     Forall (fun ts => ts <> []) tss ->
-    parse_split_ints 44 (map (intercalate [44]) tss) = Some vss.
+    parse_split_ints_gen fixed 44 (map (intercalate [44]) tss) = Some vss.
 Proof. exact parse_split_ints_exact. Qed.
-Print Assumptions C18_lists_split.
+Print Assumptions C18_lists_split_partial.
+(* an empty list in the column moves the later values up one row in the pinned parser: the lists [1], [], [3] *)
+Theorem C18_lists_split_pinned_refuted :
+  parse_split_ints_pinned 44 [[49]; []; [51]] = Some [[1]; [3]; []]
+  /\ parse_split_ints 44 [[49]; []; [51]] = Some [[1]; []; [3]].
+Proof. vm_compute. split; reflexivity. Qed.
+Print Assumptions C18_lists_split_pinned_refuted.
 
 (* T5 (floats), PARTIAL.  Proved: for every batch of texts of the grammar
      [+-]? digits* ( '.' digits* )? ( 'e' [+-]? digits+ )?    (>= 1 mantissa digit, exponent fits int64)
@@ -131,8 +140,11 @@ Theorem C18_float_pinned_plus_refuted :
             /\ str_to_float_rows_pinned [text_of x] = None.
 Proof.
   exists {| fs := [43]; fi := [49]; fd := true; ff := [53]; fe := None |}.
-  split; [|split; vm_compute; reflexivity].
-  repeat split; try reflexivity; try discriminate. right. right. split; reflexivity.
+  split.
+  - unfold ftext_wf. cbn [fs fi fd ff fe].
+    split; [right; right; split; reflexivity|]. split; [reflexivity|]. split; [reflexivity|].
+    split; [discriminate|]. split; [discriminate|exact I].
+  - split; vm_compute; reflexivity.
 Qed.
 Print Assumptions C18_float_pinned_plus_refuted.
 
@@ -145,7 +157,7 @@ Example C18_nonvacuous :
     = Some [-7; 42; 2 ^ 63 - 1]
   /\ power_rows [(3, []); (1, []); (4, [1])] = [[2; 1; 0]; [0]; [2; 2; 1; 0]]
   /\ int_lists_to_strings 44 [[1; -2; 33]; []; [5]] = [unhex "312c2d322c3333"; []; unhex "35"]%string
-  /\ parse_split_ints 44 [unhex "312c2d322c3333"; unhex "35"]%string = Some [[1; -2; 33]; [5]].
+  /\ parse_split_ints_pinned 44 [unhex "312c2d322c3333"; unhex "35"]%string = Some [[1; -2; 33]; [5]].
 Proof. vm_compute. repeat split; reflexivity. Qed.
 (* "-1.25", "2.5e-3" and ".5" are texts of the grammar; the model returns -125/10^2, 25/10^1*10^-3, 5/10^1 *)
 Example C18_float_nonvacuous :
@@ -157,6 +169,12 @@ Example C18_float_nonvacuous :
   /\ str_to_float_rows (map text_of xs) = Some [(true, 125, 2, 0); (false, 25, 1, -3); (false, 5, 1, 0)].
 Proof.
   cbn zeta. split; [|split; vm_compute; reflexivity].
-  repeat constructor; try reflexivity; try discriminate.
-  exists (-3). split; [reflexivity|]. unfold int64. split; [vm_compute; discriminate|reflexivity].
+  assert (W : forall s i d f e, (s = [] \/ s = [45]) -> all_digits i -> all_digits f -> (d = false -> f = []) ->
+              i ++ f <> [] -> match e with Some t => exists v, text_value t = Some v /\ int64 v | None => True end ->
+              ftext_wf true {| fs := s; fi := i; fd := d; ff := f; fe := e |}).
+  { intros s i d f e Hs Hi Hf Hd Hne He. unfold ftext_wf. cbn [fs fi fd ff fe].
+    split; [destruct Hs; [left|right; left]; assumption|]. repeat split; assumption. }
+  repeat constructor; apply W; try reflexivity; try discriminate; try (left; reflexivity); try (right; reflexivity);
+    try exact I.
+  all: exists (-3); split; [reflexivity|]; unfold int64; split; [vm_compute; discriminate|reflexivity].
 Qed.
